@@ -307,6 +307,113 @@ def _one_context(model: Model, X: RuleResult, whole_package: bool = False):
                 X.ok(f.fq, what + " : a single substitution context")
 
 
+def _uniform_weights(model: Model, f, expr, sname, defs):
+    """Decide `expr == 1/N replicated N times` with N = len(samples): "" if so, a reason if the expression was understood and is
+    something else, None if it cannot be interpreted.  Understood spellings: zeros(S) + c, c + zeros(S), full(S, c), ones(S) * c,
+    ones(S) / d, with S = N | (N,) | [N]; N, c, d arithmetic over samples.shape[0] / len(samples) (through local names)."""
+    from ..domains.poly import eval_expr, S as _S, C as _C, Uninterpretable as _U
+    sn = ast.unparse(sname)
+
+    def atom(e):
+        t = ast.unparse(e)
+        if t in ("%s.shape[0]" % sn, "len(%s)" % sn, "%s.size(0)" % sn):
+            return _S("N")
+        if isinstance(e, ast.Name) and len(defs.get(e.id, [])) == 1:
+            try:
+                return eval_expr(defs[e.id][0], {}, atom)
+            except _U:
+                return None
+        if isinstance(e, ast.Name):
+            return _S(e.id)                      # a parameter / unknown quantity: a symbol of its own
+        return None
+
+    def num(e):
+        return eval_expr(e, {}, atom)
+
+    def shape_len(e):
+        if isinstance(e, (ast.Tuple, ast.List)) and len(e.elts) == 1:
+            e = e.elts[0]
+        return num(e)
+    try:
+        length = value = None
+        dtype_kw = None
+        e = expr
+        if isinstance(e, ast.BinOp) and isinstance(e.op, (ast.Add, ast.Mult, ast.Div)):
+            sides = [e.left, e.right]
+            ctor = [x for x in sides if isinstance(x, ast.Call) and ast.unparse(x.func).split(".")[-1] in ("zeros", "ones")]
+            if len(ctor) != 1 or not ctor[0].args:
+                return None
+            other = sides[1] if sides[0] is ctor[0] else sides[0]
+            kind = ast.unparse(ctor[0].func).split(".")[-1]
+            length = shape_len(ctor[0].args[0])
+            dtype_kw = next((k.value for k in ctor[0].keywords if k.arg == "dtype"), None)
+            if kind == "zeros" and isinstance(e.op, ast.Add):
+                value = num(other)
+            elif kind == "ones" and isinstance(e.op, ast.Mult):
+                value = num(other)
+            elif kind == "ones" and isinstance(e.op, ast.Div) and e.left is ctor[0]:
+                value = _C(1) / num(other)
+            else:
+                return None
+        elif isinstance(e, ast.Call) and ast.unparse(e.func).split(".")[-1] == "full" and len(e.args) >= 2:
+            length, value = shape_len(e.args[0]), num(e.args[1])
+            dtype_kw = next((k.value for k in e.keywords if k.arg == "dtype"), None)
+        else:
+            return None
+    except _U:
+        return None
+    if not length.eq(_S("N")):
+        return "%r weights for len(samples) samples" % (length,)
+    if not value.eq(_C(1) / _S("N")):
+        return "each weight is %r, not 1/len(samples)" % (value,)
+    # dtype: must not be the dtype of the state (which may be an integer tensor: 1/N would be truncated to 0)
+    if dtype_kw is not None:
+        state_params = set(f.params()[1:2])
+        src = _dtype_source(model, f, dtype_kw, defs)
+        if src is not None and src in state_params | {sn}:
+            return "the weights take the dtype of the state `%s` (an integer state truncates 1/N to 0)" % src
+    return ""
+
+
+def _dtype_source(model: Model, f, e, defs, depth=0):
+    """name of the tensor whose `.dtype` this expression is (followed through local names and tuples returned by module-level helpers)"""
+    if depth > 5:
+        return None
+    if isinstance(e, ast.Attribute) and e.attr == "dtype" and isinstance(e.value, ast.Name):
+        base = e.value.id
+        # the base may itself be a plain alias of a parameter
+        ds = defs.get(base, [])
+        if len(ds) == 1 and isinstance(ds[0], ast.Name):
+            return ds[0].id
+        return base
+    if isinstance(e, ast.Name):
+        for st in own_nodes(f.node):
+            if isinstance(st, ast.Assign) and isinstance(st.targets[0], ast.Tuple) and isinstance(st.value, ast.Call) and isinstance(st.value.func, ast.Name):
+                names = [t.id if isinstance(t, ast.Name) else None for t in st.targets[0].elts]
+                if e.id in names:
+                    g = f.module.functions.get(st.value.func.id)
+                    if g is None:
+                        return None
+                    k = names.index(e.id)
+                    gd = function_defs(g.node)
+                    for r in own_nodes(g.node):
+                        if isinstance(r, ast.Return) and isinstance(r.value, ast.Tuple) and k < len(r.value.elts):
+                            src = _dtype_source(model, g, r.value.elts[k], gd, depth + 1)
+                            if src is None:
+                                continue
+                            # map the helper's parameter back to the caller's argument
+                            if src in g.params():
+                                i = g.params().index(src)
+                                if i < len(st.value.args) and isinstance(st.value.args[i], ast.Name):
+                                    return st.value.args[i].id
+                            return src
+                    return None
+        ds = defs.get(e.id, [])
+        if len(ds) == 1:
+            return _dtype_source(model, f, ds[0], defs, depth + 1)
+    return None
+
+
 def _weights(model: Model, W: RuleResult):
     for name in ("mh", "mhcustom"):
         f = model.func(MCMC, name)
@@ -318,22 +425,17 @@ def _weights(model: Model, W: RuleResult):
         wname = rets[0].value.elts[1]
         defs = function_defs(f.node)
         wd = defs.get(wname.id, []) if isinstance(wname, ast.Name) else []
-        ok = False
-        why = ""
-        if len(wd) == 1 and isinstance(wd[0], ast.BinOp) and isinstance(wd[0].op, ast.Add):
-            z, c = wd[0].left, wd[0].right
-            n_expr = "%s.shape[0]" % ast.unparse(sname)
-            zok = isinstance(z, ast.Call) and ast.unparse(z.func).split(".")[-1] == "zeros" and z.args \
-                and ast.unparse(z.args[0]).replace(" ", "") in ("(%s,)" % n_expr, "[%s]" % n_expr, n_expr)
-            cok = isinstance(c, ast.BinOp) and isinstance(c.op, ast.Div) and isinstance(c.left, ast.Constant) and c.left.value in (1, 1.0) \
-                and ast.unparse(c.right) == n_expr
-            ok = zok and cok
-            why = "zeros((%s,)) + 1/%s" % (n_expr, n_expr)
         what = "%s weights = %s" % (name, norm_stmt(wd[0], 90) if wd else None)
-        if ok:
-            W.ok(f.fq, what + "  [= 1/len replicated len times]")
+        if len(wd) != 1:
+            W.undecided(f, rets[0], "%s: the weights are not defined by a single expression" % name)
+            continue
+        verdict = _uniform_weights(model, f, wd[0], sname, defs)
+        if verdict is None:
+            W.undecided(f, rets[0], "%s: cannot interpret the weights expression `%s`" % (name, ast.unparse(wd[0])[:80]))
+        elif verdict == "":
+            W.ok(f.fq, what + "  [= 1/len(samples) replicated len(samples) times, floating dtype]")
         else:
-            W.bad(f, rets[0], "the weights returned by %s are not recognisably 1/len(samples) replicated len(samples) times" % name, what=what)
+            W.bad(f, rets[0], "the weights returned by %s are not 1/len(samples) replicated len(samples) times: %s" % (name, verdict), what=what)
     d = model.func(MCMC, "dummy1d")
     src = [s for s in own_nodes(d.node) if isinstance(s, ast.Assign) and isinstance(s.targets[0], ast.Name)
            and isinstance(s.value, ast.BinOp) and isinstance(s.value.op, ast.Div)
